@@ -31,3 +31,30 @@ def judge_dedup(ctx, engine: str, module: str, records: list[dict], *, constants
             out.append((ri, clauses))
     ctx.extra["distinct_case_obs_pairs_judged_by_tlc"] = ctx.extra.get("distinct_case_obs_pairs_judged_by_tlc", 0) + len(uniq)
     return out
+
+
+def faithful_counterexample(ctx, engine: str, module: str, *, constants: dict, invariant: str, name: str):
+    """Model-check the *faithful* variant of a table spec (a Dev_... switch on): TLC is expected to refute the
+    named invariant; returns the offending case (TLC's own counterexample) or None if the invariant held.
+    A refuted faithful model is not a verdict about the code -- the returned case is concretised and executed
+    by the caller like any other case."""
+    import re
+
+    from vf.tlc import MachineryError, render_cfg, run_tlc, sany
+
+    wd = ctx.wd.stage(engine)
+    mod = f"{module}_Faithful"
+    (wd / f"{mod}.tla").write_text(
+        f"---- MODULE {mod} ----\nEXTENDS {module}, TLC\nVARIABLE c\nFInit == c \\in Cases\nFNext == UNCHANGED c\n"
+        f"FInv == {invariant}(c)\n====\n")
+    sany(wd, mod)
+    cfg = render_cfg(init_next=("FInit", "FNext"), constants=constants, invariants=["FInv"])
+    r = run_tlc(wd, mod, cfg, cfg_name=f"{mod}.cfg", workers=2)
+    ctx.add_tlc(name, r)
+    if r.ok:
+        return None
+    if r.violated != "FInv":
+        raise MachineryError(f"{mod}: expected FInv to be refuted, got violated={r.violated} error={r.error}\n{r.out[-2000:]}")
+    text = r.counterexample[0][1] if r.counterexample else ""
+    m = re.search(r"c = (.*)", text, re.S)
+    return (m.group(1).strip() if m else text)[:1500]
